@@ -1,4 +1,5 @@
 pub mod engine;
+pub mod fuzzdec;
 pub mod gen;
 pub mod hashid;
 pub mod libapi;
